@@ -166,7 +166,23 @@ def dump_histories(db, rng: random.Random, wd, tier: str):
     recs, meta = [], []
     for n, (nums, ids) in enumerate(filters):
         path = wd / f"dump{n}" / "out.jsonl"
-        dec = NMEA2000Decoder(dump_to_file=str(path), dump_pgns=list(nums) + list(ids))
+        # every third session: the decoder also converts to preferred units, and the library's loggers are switched to DEBUG
+        # (verbose runs serialise and format what quiet runs do not)
+        import logging
+        loud = n % 3 == 2
+        kw_ = {}
+        if loud:
+            from nmea2000.consts import PhysicalQuantities as PQ
+            kw_ = {"preferred_units": {PQ.ANGLE: "deg", PQ.SPEED: "kts", PQ.TEMPERATURE: "C", PQ.PRESSURE: "bar"}}
+            was_disabled = logging.root.manager.disable
+            logging.disable(logging.NOTSET)
+            lg_ = logging.getLogger("nmea2000")
+            old_level, old_prop = lg_.level, lg_.propagate
+            lg_.setLevel(logging.DEBUG)
+            lg_.propagate = False
+            nh_ = logging.NullHandler()
+            lg_.addHandler(nh_)
+        dec = NMEA2000Decoder(dump_to_file=str(path), dump_pgns=list(nums) + list(ids), **kw_)
         if n % 2:
             dec.__enter__()             # every other session uses the decoder as a context manager (left by __exit__ below)
         out = []
@@ -190,6 +206,11 @@ def dump_histories(db, rng: random.Random, wd, tier: str):
             dec.__exit__(None, None, None)
         else:
             dec.close()
+        if loud:
+            lg_.removeHandler(nh_)
+            lg_.setLevel(old_level)
+            lg_.propagate = old_prop
+            logging.disable(was_disabled)
         try:
             text = path.read_bytes().decode("utf-8")
             got = text.split("\n")
